@@ -270,11 +270,17 @@ def run_assign(case):
                 S.append(("put(i, v, axis=name)", lambda a: a.put(idx[i], rhs, axis=dims[i], **kw), False))
                 if i != 0:
                     S.append(("put(i, v, axis=pos)", lambda a: a.put(idx[i], rhs, axis=i, **kw), False))
+                S.append(("put(i, v, axis=negative pos)", lambda a: a.put(idx[i], rhs, axis=i - len(dims), **kw), False))
+                S.append(("put({negative pos: i}, v)", lambda a: a.put({i - len(dims): idx[i]}, rhs, **kw), False))
         else:
             S = [("ix[t]=v", lambda a: a.ix.__setitem__(idx, rhs) if not cast else a.put(idx, rhs, indexing="position", cast=True), False),
                  ("iloc[t]=v", lambda a: a.iloc.__setitem__(idx, rhs) if not cast else a.put(idx, rhs, indexing="position", cast=True), False),
                  ("put(t, v, indexing=position)", lambda a: a.put(idx, rhs, indexing="position", **kw), False),
                  ("put(t, v, indexing=position, inplace=False)", lambda a: a.put(idx, rhs, indexing="position", inplace=False, **kw), True)]
+            if len(nonfull) == 1:
+                i = nonfull[0]
+                S.append(("put(i, v, axis=negative pos, indexing=position)", lambda a: a.put(idx[i], rhs, axis=i - len(dims), indexing="position", **kw), False))
+                S.append(("ix[{negative pos: i}]=v", lambda a: a.put({i - len(dims): idx[i]}, rhs, indexing="position", **kw), False))
             cl.add("position")
         for name, f, copy_ in S:
             a = core.build(spec, attrs=ATTRS)
